@@ -78,6 +78,8 @@ pub struct StubCfg {
     /// ring operations performed inside handle_event for queue events
     pub add_used_on_event: bool,
     pub fail_update_memory: bool,
+    /// handle_event writes one byte into the last page of every guest memory region
+    pub touch_memory_on_event: bool,
 }
 
 impl Default for StubCfg {
@@ -98,6 +100,7 @@ impl Default for StubCfg {
             exit_events: true,
             add_used_on_event: false,
             fail_update_memory: false,
+            touch_memory_on_event: false,
         }
     }
 }
@@ -251,6 +254,16 @@ where
             f(&d);
         }
         self.log.lock().unwrap().dispatches.push(d);
+        if self.cfg.touch_memory_on_event {
+            if let Some(m) = &self.mem {
+                use vm_memory::{Bytes, GuestAddressSpace, GuestMemory, GuestMemoryRegion};
+                let snap = m.memory();
+                let ends: Vec<u64> = snap.iter().map(|r| r.start_addr().0 + r.len() - 1).collect();
+                for e in ends {
+                    let _ = snap.write_slice(&[0xee], vm_memory::GuestAddress(e));
+                }
+            }
+        }
         if self.cfg.add_used_on_event {
             if let Some(v) = vrings.get(device_event as usize) {
                 let _ = v.add_used(0, 0x10);
